@@ -4,8 +4,8 @@ CONSTANTS
   MaxLen = 3
   KeyWithoutType = FALSE
   FirstIndexOnly = FALSE
-  ShapeSet = {"S4", "S6", "S9", "S12", "S14", "any", "mii"}
-  NameSet = {"X", "Name", "AName", "nosuch", "Cust", "W", "Uelan"}
+  ShapeSet = {"S4", "S6", "S9", "S12", "S14", "any", "mii", "mnk", "S13"}
+  NameSet = {"X", "Name", "AName", "nosuch", "Cust", "W", "Uviet"}
 INVARIANTS
   CacheUnobservable
   Bounded
